@@ -451,7 +451,9 @@ def run_member(task: dict) -> dict:
         res["inconclusive"].append(("build", str(e)))
         return res
     ref = Ref(member["rules"]) if task.get("use_ref") else None
-    ascii_only = "istr" in member["features"] or task.get("assume") == "ascii"
+    # case-insensitive literals: pest defines them for ASCII only, so the reference slice (C03-C05) stays
+    # ASCII; properties that compare python-pest with itself take every code point
+    ascii_only = ("istr" in member["features"] and bool(task.get("use_ref"))) or task.get("assume") == "ascii"
     no_other_breaks = False
     if prop == "C01":
         # side conditions: generate() deterministic (same object, twice)
@@ -487,6 +489,30 @@ def run_member(task: dict) -> dict:
             for pr in eng.explore(fn, max_paths=task.get("max_paths", 20000), deadline=t_end):
                 if pr.status != "ok":
                     res["inconclusive"].append((key, f"{pr.status}: {pr.reason}"))
+                    text = holder.get("text")
+                    if pr.model is None or text is None:
+                        continue
+                    # no verdict for this path; its witness is still run on the real objects, and a
+                    # property failure there is a (replayed) violation like any other
+                    w = text.concrete(pr.model) if isinstance(text, SymStr) else text
+                    cc = Case(prop, member, rule, n, k, w, modes, ref).run()
+                    cfails = oracle(cc)
+                    res["witness_only"] = res.get("witness_only", 0) + 1
+                    if cfails:
+                        res["failures"].append(
+                            {
+                                "key": key,
+                                "kind": ",".join(sorted({f[0] for f in cfails})),
+                                "detail": ("witness of a path without verdict: " + " | ".join(f[1] for f in cfails))[:600],
+                                "witness": w,
+                                "pc": "true",
+                                "vars": [],
+                                "status": "new",
+                                "finding": None,
+                                "replay": {"type": "family", "prop": prop, "grammar": member["text"], "rules": member["rules"], "features": sorted(member["features"]),
+                                           "rule": rule, "text": w, "k": k, "modes": task["modes"], "use_ref": bool(task.get("use_ref"))},
+                            }
+                        )
                     continue
                 results, refres, fails = pr.value
                 text = holder["text"]
